@@ -346,11 +346,39 @@ def rule_r4(facts, rep, rid="C10-R4"):
         rep.violation(rid, key, "Tree::is_header no longer selects exactly the sections that are not inside a list", t.loc)
 
 
+def rule_r6(facts, rep, rid="C10-R6"):
+    rep.rule(rid, "section -> list -> section is the identity only if the list that replaces the section is re-parsed under the section's own parent. Markdown gives a "
+                  "list that follows a sibling section to that sibling (a heading owns everything up to the next heading), so `Section to list` must not be offered for - or must "
+                  "treat specially - a section that has a preceding sibling section: its offer condition has to look at the target's position, not only at `is_header`.")
+    for part in ("action", "changes"):
+        f = facts.fn("SectionToList as iwes::router::server::action::ActionProvider>::%s" % part)
+        rep.saw_fn(f)
+        key = "%s|offer-looks-at-position-among-siblings" % f.def_
+        # every Tree / context query that takes part in the offer condition (filter closures, if conditions in front of the result)
+        tests = set()
+        for x in fb.walk(f.body):
+            if x.get("k") == "mcall" and x["name"] in ("filter", "and_then", "take_if") and x.get("args") and x["args"][0].get("k") == "closure":
+                for y in fb.calls_in(x["args"][0]["body"]):
+                    tests.add(fb.last_seg(fb.callee(y) or y.get("name") or "?"))
+            if x.get("k") == "if":
+                for y in fb.calls_in(x["c"]):
+                    tests.add(fb.last_seg(fb.callee(y) or y.get("name") or "?"))
+        tests -= {"clone", "deref", "borrow", "as_ref"}
+        positional = [t for t in tests if t not in ("is_header", "is_section", "is_some", "is_none")]
+        if positional:
+            rep.ok(rid, key, "the offer condition also consults %s" % sorted(positional), f.loc)
+        else:
+            rep.violation(rid, key, "`Section to list` is offered on `%s` alone: for a section that follows a sibling section (`# t / ## a / text / ## b / text`, action on `## b`) the new list "
+                          "is written after `## a`'s text, re-parsed as part of `## a`, and `List to sections` brings it back one level deeper (`### b`) - the round trip does not restore "
+                          "the note" % (" && ".join(sorted(tests)) or "no test"), f.loc)
+
+
 def run(facts, rep, tier):
     rule_r1(facts, rep)
     rule_r2(facts, rep)
     rule_r3(facts, rep)
     rule_r4(facts, rep)
+    rule_r6(facts, rep)
     rep.rule("C10-R5", "= C15-R1 restricted to the three conversion actions: the rewritten note is rendered with to_markdown(&<its own key>.parent(), <configured options>), so block references keep "
                        "resolving and a second application starts from the same text.")
     from . import c15
